@@ -129,7 +129,8 @@ func runOSM(data json.RawMessage) vh.Verdict {
 	exp := expState{Eff: c.Eff, Obs: c.Obs}
 	var w b6.World
 	var err error
-	if !obs.WithDeadline(60*time.Second, func() {
+	var diffA, diffB obs.Observation
+	if !obs.WithDeadline(120*time.Second, func() {
 		switch c.Impl {
 		case "basic":
 			w, err = ingest.BuildWorldFromOSM(nodes, ways, rels, &ingest.BuildOptions{Cores: cores})
@@ -144,6 +145,31 @@ func runOSM(data json.RawMessage) vh.Verdict {
 					w, err = compact.NewWorldFromData(data)
 				}
 			}
+		case "diff":
+			// C02 on OSM-shaped input (way and relation ids collide): basic world vs compact world, every read query
+			var bw, cw b6.World
+			bw, err = ingest.BuildWorldFromOSM(nodes, ways, rels, &ingest.BuildOptions{Cores: cores})
+			if err != nil {
+				return
+			}
+			source := ingest.MemoryOSMSource{Nodes: nodes, Ways: ways, Relations: rels}
+			var fs ingest.FeatureSource
+			fs, err = ingest.NewFeatureSourceFromPBF(&source, &ingest.BuildOptions{Cores: cores}, context.Background())
+			if err != nil {
+				return
+			}
+			var data []byte
+			data, err = compact.BuildInMemory(fs, &compact.Options{Goroutines: cores, PointsScratchOutputType: compact.OutputTypeMemory})
+			if err != nil {
+				return
+			}
+			cw, err = compact.NewWorldFromData(data)
+			if err != nil {
+				return
+			}
+			dopts := obs.Options{Keys: c.Keys, Queries: c.Queries, Refs: true, Each: true, Traverse: true, EachCores: cores}
+			diffA, diffB = obs.Observe(bw, c.IDs, dopts), obs.Observe(cw, c.IDs, dopts)
+			w = bw
 		default:
 			err = fmt.Errorf("unknown impl %q", c.Impl)
 		}
@@ -152,6 +178,11 @@ func runOSM(data json.RawMessage) vh.Verdict {
 	}
 	if err != nil {
 		return vh.Verdict{OK: false, Key: cm.class + ":build:error", Msg: fmt.Sprintf("build failed: %v", err)}
+	}
+	if c.Impl == "diff" {
+		cm.class = "diff"
+		compareTwo(cm, "diff", c.IDs, diffA, diffB, "basic", "compact")
+		return osmVerdict(cm, c.Sections)
 	}
 	opts := obs.Options{Keys: c.Keys, Queries: c.Queries, Refs: c.Impl == "basic", Each: true, EachCores: cores}
 	var got obs.Observation
@@ -164,9 +195,13 @@ func runOSM(data json.RawMessage) vh.Verdict {
 	}
 	cm.compareObs(-1, "", exp, got)
 	cm.validity(-1, got)
+	return osmVerdict(cm, c.Sections)
+}
+
+func osmVerdict(cm *comparer, sections []string) vh.Verdict {
 	var relevant []mismatch
 	for _, m := range cm.out {
-		for _, p := range c.Sections {
+		for _, p := range sections {
 			if strings.HasPrefix(m.Section, p) {
 				relevant = append(relevant, m)
 				break
